@@ -41,6 +41,10 @@ theorem listener_edges_closed : ∀ e ∈ Gen.LockFacts.lockEdges,
     never waits for another one while owning a lock). -/
 theorem no_blocking_under_lock : Gen.LockFacts.blockingUnderLock = [] := by decide
 
+/-- **no_lock_leaks**: no function returns, on any path (error paths included), with a lock held that
+    no deferred unlock releases — the bracketing the rank argument assumes. -/
+theorem no_lock_leaks : Gen.LockFacts.lockLeaks = [] := by decide
+
 /-- **no_deadlock**: any set of concurrent calls whose acquisitions follow the ranks — which
     `lock_order_ranked` establishes for every listen/close call of the code — always has a call that
     can make progress until all have returned; then every lock is free again. -/
